@@ -223,9 +223,13 @@ func dnsScenario(name string, size int, clockSteps []time.Duration, ops ...[]dns
 		gen := map[string]int{}
 		answers := map[string]map[string]bool{} // host -> set of address lists handed out
 		var rmu sync.Mutex
+		resolvedAt := map[int]time.Time{}
 		var dns *fclient.VerifDNS
 		dns = fclient.VerifNewDNSCache(size, ttl, func(ctx context.Context, host string) ([]net.IPAddr, error) {
 			verifhook.Point("resolve") // the lookup takes time: others may run
+			if !e.free {
+				resolvedAt[e.tid()] = e.s.Now() // whatever this caller is handed afterwards is handed out at or after this instant
+			}
 			if e.fault(2, "resolver-error") == 1 {
 				return nil, errors.New("scripted resolver failure")
 			}
@@ -279,6 +283,12 @@ func dnsScenario(name string, size int, clockSteps []time.Duration, ops ...[]dns
 						// the instant the library compared with the expiry is the last one this thread read
 						if at := e.now[e.tid()]; !at.Before(expires) {
 							e.violate("lookup of %s served a cached entry at %v, at or past its expiry %v", op.host, at.Sub(t0), expires.Sub(t0))
+						}
+					}
+					if !cached && !e.free {
+						// a miss went through the resolver: what comes back is handed out no earlier than the resolver's return
+						if at, ok := resolvedAt[e.tid()]; ok && !at.Before(expires) {
+							e.violate("lookup of %s (after resolving) was handed an entry that had expired at %v, before the resolver even returned at %v", op.host, expires.Sub(t0), at.Sub(t0))
 						}
 					}
 					e.observe("t%d.%d %s -> gen%d cached=%v", ti, oi, op.host, addrs[0].IP.To4()[3], cached)
